@@ -10,6 +10,7 @@ from ...schema import (
     EnumType,
     GraphQLType,
     InputObjectType,
+    ListType,
     NonNullType,
     ScalarType,
     unwrap_type,
@@ -93,6 +94,19 @@ class ValuesOfCorrectTypeChecker(ValidationVisitor):
                 input_type.get_value(node.value)
             except UnknownEnumValue:
                 self._report_bad_value(input_type, node)
+
+    def enter_list_value(self, node):
+        # The type information visitor has already moved on to the item type.
+        expected = self.type_info.enclosing_input_type
+        if expected is None:
+            return
+
+        if isinstance(expected, NonNullType):
+            expected = expected.type
+
+        if not isinstance(expected, ListType):
+            self._report_bad_value(self.type_info.enclosing_input_type, node)
+            raise SkipNode()
 
     def enter_object_value(self, node):
         named_type = (
